@@ -160,6 +160,18 @@ def run(ctx):
                         for (sw, t_true, t_false) in bool_branches(f, q.dest[0]):
                             if c.bb in f.reachable(t_true) and c.bb in f.reachable(t_false):
                                 governed = True
+                if from_map and not governed:
+                    # the choice may be made in a helper that returns the operand: it consults the record itself
+                    for hc in d["calls"]:
+                        h = p.fns.get(hc.resolved or hc.name)
+                        if h is not None and h.crate == f.crate and h.id != f.id and \
+                                reads_field_transitively(p, h, "SourceFile", "normalized_pos", depth=2):
+                            for q in h.calls():
+                                hq = p.fns.get(q.resolved or "")
+                                if hq is not None and not q.dest[1] and reads_field_transitively(p, hq, "SourceFile", "normalized_pos", depth=1):
+                                    for (sw, t_true, t_false) in bool_branches(h, q.dest[0]):
+                                        if set(h.returns()) & set(h.reachable(t_true)) and set(h.returns()) & set(h.reachable(t_false)):
+                                            governed = True
                 ok = not from_map or governed
                 key = "apply_newline_style: Auto detection reads source-map text"
                 r.instance(B, key, "ok" if ok else "violation", c.loc(), "operand derives from %s" % [short(x.name) for x in d["calls"]][:4])
@@ -248,7 +260,10 @@ def blank_line_clamp(ctx, rid):
     PURE = ("blank_lines", "saturating_sub", "saturating_add", "::min", "::max", "::clamp", "::chars", "::rev", "take_while", "::count", "trailing", "newline")
     try:
         paths = explore(f, is_effect=lambda c: c.name.endswith("push_str") or c.name.endswith("::repeat") or c.name.endswith("::push"),
-                        pure=lambda c: any(x in c.name for x in PURE), max_paths=20000, program=p, inline="auto")
+                        pure=lambda c: any(x in c.name for x in PURE) and not (
+                            c.name in p.fns and p.fns[c.name].crate == "rustfmt_nightly" and p.fns[c.name].argc >= 2
+                            and "::config::" not in c.name),     # a helper that computes the count from several numbers is looked into
+                        max_paths=20000, program=p, inline="auto")
     except TooManyPaths as e:
         r.undecidable(rid, str(e))
         return
